@@ -76,6 +76,23 @@ def check(inp):
                     specs = re.findall(r'module procedure\s+(\w+)', m.group(2))
                     if len(set(specs)) != len(specs):
                         return "%s: generic interface %s lists a specific twice: %s" % (n, m.group(1), specs)
+        # Python extension and Lua binding: one entry per name in every method / function table, no static wrapper
+        # function defined twice
+        for n in names:
+            if not (n.startswith(("py", "lua")) and n.endswith((".c", ".cpp"))):
+                continue
+            text = open(os.path.join(d, n)).read()
+            defs = collections.Counter(m.group(1) for m in re.finditer(
+                r'^static\s+[A-Za-z_][\w\s\*]*?[\s\*]([A-Za-z_]\w*)\s*\([^;{)]*\)\s*\n\{', text, re.M))
+            dup = sorted(k for k, v in defs.items() if v > 1)
+            if dup:
+                return "%s defines the wrapper function %s %d times" % (n, dup[0], defs[dup[0]])
+            for tm in re.finditer(r'(?:PyMethodDef|luaL_Reg)\s+(\w+)\s*\[\]\s*=\s*\{(.*?)\n\};', text, re.S):
+                ents = collections.Counter(m.group(1) for m in re.finditer(r'\{\s*"([^"]+)"\s*,', tm.group(2)))
+                dup = sorted(k for k, v in ents.items() if v > 1)
+                if dup:
+                    return "%s: table %s has %d entries named \"%s\" (one callable name, several wrappers: only the first is reachable)" % (
+                        n, tm.group(1), ents[dup[0]], dup[0])
         # the compilers' verdict on redefinitions
         hdr = ["#ifndef LIB_H", "#define LIB_H", "#include <string>", "#include <vector>", inp.get("header", ""), "#endif"]
         open(os.path.join(d, "lib.hpp"), "w").write("\n".join(hdr) + "\n")
@@ -198,6 +215,42 @@ LIBS = [
 - decl: void label(int n, const std::string &s)
 """, "const std::string name(); const std::string name(int i); void fill(std::vector<int> &v); void fill(std::vector<double> &v); "
      "void label(const char *s); void label(int n, const std::string &s);"),
+]
+
+
+RESULT_AS_ARG = """- decl: const std::string getName(int id)
+  format:
+    F_string_result_as_arg: output
+- decl: const std::string getName(const std::string &key)
+  format:
+    F_string_result_as_arg: output
+- decl: const std::string getTitle()
+  format:
+    F_string_result_as_arg: output
+- decl: const std::string & getLabel(int id)
+- decl: const std::string & getLabel(const std::string &key)
+"""
+RESULT_AS_ARG_H = ("const std::string getName(int id); const std::string getName(const std::string &key); const std::string getTitle(); "
+                   "const std::string & getLabel(int id); const std::string & getLabel(const std::string &key);")
+HEAD_PL = "library: lib\ncxx_header: lib.hpp\noptions:\n  wrap_python: true\n  wrap_lua: true\n%sdeclarations:\n"
+LIBS += [
+    # overloads that are NOT adjacent, overloads with default arguments, in a class and at file level (Python, Lua tables)
+    (HEAD_PL % "" + """- decl: void setValue(int v)
+- decl: int getValue()
+- decl: void setValue(double v)
+- decl: int work(int a)
+- decl: int work(int a, int b, int c = 0)
+- decl: class Counter
+  declarations:
+  - decl: Counter()
+  - decl: void add(int n)
+  - decl: int total()
+  - decl: void add(const char *s, int times = 1)
+""", "void setValue(int v); int getValue(); void setValue(double v); int work(int a); int work(int a, int b, int c = 0); "
+     "class Counter { public: Counter(); void add(int n); int total(); void add(const char *s, int times = 1); };"),
+    # string results turned into arguments, overloaded, with and without the CFI variants
+    (HEAD % "" + RESULT_AS_ARG, RESULT_AS_ARG_H),
+    (HEAD % "  F_CFI: true\n" + RESULT_AS_ARG, RESULT_AS_ARG_H),
 ]
 
 
